@@ -137,7 +137,9 @@ theorem C12_priority_exact (p : Nat) (hp : p ≤ 2) : p &&& 3 = p := by
 /-- every writer that addresses a process id or an alias of a particular incarnation compares the
     incarnation with the peer's before it touches the buffer (refused ⇒ nothing written) -/
 theorem C12_incarnation_guarded :
-    ∀ k ∈ wireKinds, k.typ ∈ [101, 104, 107, 121, 124, 129, 130, 181, 184] → k.incarnation = true := by decide
+    ∀ k ∈ wireKinds, k.typ ∈ [101, 104, 107, 121, 124, 129, 130] → k.incarnation = true := by decide
+-- The Terminate frames (181, 184) announce a LOCAL target: since the repair of the guard in SendTerminatePID/Alias they
+-- compare with the node's own incarnation, which is the subject of Props/C14.lean (C14_terminate_announced).
 
 /-- the payload handed to the decoder is always a suffix of the frame (nothing foreign is decoded) -/
 theorem C12_payload_is_suffix (k : Kind) (f : List UInt8) (p : Parsed) (h : parse k f = .ok p) :
